@@ -76,6 +76,11 @@ def errname(exc):
     return "Other"
 
 
+def _pickled_filter(kind, k):
+    """what a filter object of the harness un-pickles to (it never needs to work there)"""
+    return (kind, k)
+
+
 class TableFilter:
     """filter number k: accepts (link l, other end x) iff bit (7*l + code(x)) % 64 of k is set.
     One object per (adapter, k) so that the neighbor-cache key (which holds the
@@ -85,6 +90,11 @@ class TableFilter:
         self.ad, self.k, self.arity = ad, k, arity
         self.count = 0
         self.fault_at = None
+
+    def __reduce__(self):
+        # a memoised neighbors() answer is keyed by the filter object; when a graph with warm
+        # caches is pickled the key must not drag the whole harness along
+        return (_pickled_filter, ("table", self.k))
 
     def __call__(self, *args):
         self.count += 1
@@ -135,6 +145,9 @@ class VertexFilter:
         self.count = 0
         self.fault_at = None
 
+    def __reduce__(self):
+        return (_pickled_filter, ("vertex", self.k))
+
     def __call__(self, x):
         self.count += 1
         if self.fault_at is not None and self.count == self.fault_at:
@@ -165,6 +178,7 @@ class Real:
         self.sg_log = []
         self.TS, self.SS = make_singleton_classes(self.sg_log)
         self.T, self.S = [], []           # instances by creation order
+        self.kept = []                    # containers exchanged with the library (C12)
         return "ok"
 
     def vname(self, v):
@@ -436,6 +450,41 @@ class Real:
                     self.reg_l(l)
 
     # -------------------------------------------------------------------- ops
+    keep_mode = False
+
+    def keep(self, *containers):
+        if self.keep_mode:
+            for c in containers:
+                self.kept.append(c)
+
+    def mutate_kept(self, n, how):
+        """caller-side edit of exchanged container number n; immutability (TypeError / AttributeError) is fine"""
+        if not self.kept:
+            return
+        c = self.kept[n % len(self.kept)]
+        junk = self.V[how % len(self.V)] if self.V else None
+        try:
+            if isinstance(c, list):
+                [lambda: c.append(junk), c.clear, c.reverse, lambda: c.pop() if c else None,
+                 lambda: c.insert(0, junk), lambda: c.__setitem__(0, junk) if c else c.append(junk)][how % 6]()
+            elif isinstance(c, set):
+                [lambda: c.add(junk), c.clear, lambda: c.discard(next(iter(c))) if c else None][how % 3]()
+            elif isinstance(c, dict):
+                [c.clear, lambda: c.__setitem__(Vertex, {Universe: Universe}), lambda: c.pop(next(iter(c))) if c else None,
+                 lambda: [v.clear() for v in c.values() if isinstance(v, dict)],
+                 lambda: [v.__setitem__(Universe, Vertex) for v in c.values() if isinstance(v, dict)]][how % 5]()
+            elif isinstance(c, tuple):
+                c[0:0] = (junk,)      # noqa  -- must raise TypeError
+            else:
+                # mapping proxies and the like
+                try:
+                    c[Vertex] = {}
+                except TypeError:
+                    for v in list(c.values()):
+                        v[Universe] = Vertex
+        except (TypeError, AttributeError, KeyError, IndexError, StopIteration):
+            pass
+
     def step(self, line):
         toks = line.split()
         if not toks:
@@ -457,7 +506,8 @@ class Real:
             ls = [self.pl(t) for t in self.opt(opts, "l").split(",") if t]
             us = [self.pv(t) for t in self.opt(opts, "u").split(",") if t]
             attrs = self.pattrs(self.opt(opts, "a"), len(self.V))
-            v = cls(links=ls, universes=iter(us), attributes=attrs)
+            self.keep(ls, us, attrs)
+            v = cls(links=ls, universes=(us if self.keep_mode else iter(us)), attributes=attrs)
             return "ok V%d" % self.reg_v(v)
         if op == "universe":
             opts = toks[1:]
@@ -465,6 +515,7 @@ class Real:
             wtok = self.opt(opts, "w")
             laws = self.pw(wtok) if wtok else None
             attrs = self.pattrs(self.opt(opts, "a"), len(self.V))
+            self.keep(ms, attrs)
             u = Universe(vertices=ms, laws=laws, attributes=attrs)
             n = self.reg_v(u)
             if u.laws is not None:
@@ -473,13 +524,17 @@ class Real:
         if op == "lawset":
             r = int(toks[1]) if len(toks) > 1 else 0
             import copy
-            kw = copy.deepcopy(RULES[r]) if False else dict(RULES[r])
+            kw = dict(RULES[r])
+            if "edge_whitelist" in kw:
+                kw["edge_whitelist"] = {k: dict(v) for k, v in kw["edge_whitelist"].items()}
+                self.keep(kw["edge_whitelist"], *kw["edge_whitelist"].values())
             return "ok W%d" % self.reg_w(UniverseLaws(**kw))
         if op == "edge":
             l = LCLS[toks[1]](self.pv(toks[2]), self.pv(toks[3]))
             return "ok L%d" % self.reg_l(l)
         if op == "nlink":
             vs = [] if toks[1] == "." else [self.pv(t) for t in toks[1].split(",")]
+            self.keep(vs)
             l = pool.N(vertices=vs)
             return "ok L%d" % self.reg_l(l)
         if op == "setv1":
@@ -534,6 +589,7 @@ class Real:
             a, b = self.pv(toks[1]), self.pv(toks[2])
             r = explicit.unlink(a, b, destroy=(toks[3] != "keep"))
             if toks[3] == "keep":
+                self.keep(r)
                 return "ok [" + ",".join("L%d" % i for i in sorted(self.lname(l) for l in r)) + "]"
             assert r is None
             return "ok -"
@@ -548,7 +604,9 @@ class Real:
             finally:
                 if f is not None:
                     f.fault_at = None
-            return "ok [" + ",".join(self.sv(x) for x in r) + "]"
+            out = "ok [" + ",".join(self.sv(x) for x in r) + "]"
+            self.keep(r)
+            return out
         if op == "flinks":
             a, b, ds, u = self.pv(toks[1]), self.pv(toks[2]), toks[3] == "1", int(toks[4])
             f = self.filt1(self.pnat(toks[5]))
@@ -561,7 +619,34 @@ class Real:
                 if f is not None:
                     f.fault_at = None
             assert isinstance(r, set)
-            return "ok [" + ",".join("L%d" % i for i in sorted(self.lname(l) for l in r)) + "]"
+            out = "ok [" + ",".join("L%d" % i for i in sorted(self.lname(l) for l in r)) + "]"
+            self.keep(r)
+            return out
+        if op in ("getlinks", "getunis", "getmembers", "getends", "getwl"):
+            if op == "getlinks":
+                c = self.pv(toks[1]).links
+                out = "ok [" + ",".join("L%d" % self.lname(l) for l in c) + "]"
+            elif op == "getunis":
+                c = self.pv(toks[1]).universes
+                out = "ok [" + ",".join(self.sv(x) for x in c) + "]"
+            elif op == "getmembers":
+                c = self.pv(toks[1]).vertices
+                out = "ok [" + ",".join(self.sv(x) for x in c) + "]"
+            elif op == "getends":
+                c = self.pl(toks[1]).vertices
+                out = "ok [" + ",".join(self.sv(x) for x in c) + "]"
+            else:
+                w = self.pw(toks[1])
+                c = w.edge_whitelist
+                out = "ok r%d" % rules_index(w)
+                if c is not None:
+                    self.keep(*c.values())
+            if c is not None:
+                self.keep(c)
+            return out
+        if op == "mut":
+            self.mutate_kept(int(toks[1]), int(toks[2]))
+            return "ok"
         if op in ("bft", "dftr", "dfti"):
             uni, start = self.pv(toks[1]), self.pv(toks[2])
             d, u = int(toks[3]), int(toks[4])
@@ -588,7 +673,9 @@ class Real:
                   "dfti": depthfirst.dft_iterative}[op]
             r = fn(uni, start, **kw)
             assert isinstance(r, list)
-            return "ok [" + ",".join(self.sv(x) for x in r) + "]"
+            out = "ok [" + ",".join(self.sv(x) for x in r) + "]"
+            self.keep(r)
+            return out
         if op in ("bfs", "dfsr", "dfsi"):
             uni, start = self.pv(toks[1]), self.pv(toks[2])
             attr = "a" + toks[3]
@@ -605,6 +692,7 @@ class Real:
                     k, vs = r.split(":")
                     adj[self.pv(k)] = [self.pv(v) for v in vs.split(",") if v]
             nL = len(self.L)
+            self.keep(adj, *adj.values())
             u = adjlist.load_adj_dict(adj, linktype=LCLS[toks[1]])
             return "ok V%d" % self.register_built(u, [(k, v) for k, vs in adj.items() for v in vs], nL)
         if op == "adjmat":
@@ -617,6 +705,7 @@ class Real:
                 for i, r in enumerate(toks[3].split("/")):
                     matrix.append([(truthy if ch == "1" else falsy)[(i + j) % 6] for j, ch in enumerate(r)])
             nL = len(self.L)
+            self.keep(matrix, vs, *matrix)
             u = adjmatrix.load_adj_matrix(matrix, vs, linktype=LCLS[toks[1]])
             pairs = [(vs[i], vs[j]) for i, row in enumerate(matrix) for j, cell in enumerate(row) if cell]
             return "ok V%d" % self.register_built(u, pairs, nL)
